@@ -58,13 +58,13 @@ Lemma In_subsetb (a b : list node) : (forall v, In v a -> In v b) -> subsetb a b
 Proof. intros H. unfold subsetb. apply forallb_forall. intros x Hx. apply dmem_In, H, Hx. Qed.
 Lemma nodupb_perm_phi l l' : Permutation l' (map phi l) -> nodupb l = true -> nodupb l' = true.
 Proof.
-  intros P H. apply NoDup_nodupb. apply (Permutation_NoDup (Permutation_sym P)). apply NoDup_map_phi, DiscreteP.nodupb_NoDup, H.
+  intros P H. apply NoDup_nodupb. apply (Permutation_NoDup (Permutation_sym P)). apply NoDup_map_phi, DiscreteGenP.nodupb_NoDup, H.
 Qed.
 Lemma subsetb_perm_phi a a' b b' : Permutation a' (map phi a) -> Permutation b' (map phi b) ->
   subsetb a b = true -> subsetb a' b' = true.
 Proof.
   intros Pa Pb H. apply In_subsetb. intros x Hx. destruct (in_perm_ex x _ _ Pa Hx) as [v [-> Hv]].
-  apply (in_perm_phi v _ _ Pb). apply (DiscreteP.subsetb_In _ _ H v Hv).
+  apply (in_perm_phi v _ _ Pb). apply (DiscreteGenP.subsetb_In _ _ H v Hv).
 Qed.
 Lemma disjointb_perm_phi : forallb (fun v => negb (mem v r0)) i0 = true -> forallb (fun v => negb (mem v r0')) i0' = true.
 Proof.
